@@ -45,7 +45,8 @@ PREFIX = '@charset "'
 
 UTF = ["utf-8", "utf-8-sig", "utf-16", "utf-16-le", "utf-16-be", "utf-32", "utf-32-le", "utf-32-be"]
 SINGLE = ["ascii", "iso-8859-1", "cp1252", "koi8-r", "iso-8859-15", "cp1251", "mac-roman", "cp437", "iso-8859-7"]
-MULTI = ["gbk", "shift_jis", "euc-jp", "big5"]
+MULTI = ["gbk", "shift_jis", "euc-jp", "big5", "iso2022_jp", "hz", "iso2022_jp_2"]
+STATEFUL = ("iso2022_jp", "hz", "iso2022_jp_2")  # encoders with a shift state: the last (even empty) chunk emits the return to ASCII
 TOTAL8 = ["iso-8859-1", "cp437", "koi8-r", "mac-roman", "iso-8859-15"]  # every byte decodes
 SPELL = {
     "utf-8": ["utf-8", "UTF-8", "utf_8", "utf8", "Utf-8"],
@@ -93,6 +94,8 @@ def gen_body(r, enc, n):
             out.append(c)
         else:
             out.append(r.choice(POOLS[0]))
+    if enc in STATEFUL and r.random() < 0.6:
+        out.append(r.choice([c for c in POOLS[7] if encodable(c, enc)] or ["a"]))  # ends in the shifted state
     return "".join(out)
 
 
